@@ -53,6 +53,10 @@ type c11Case struct {
 	// 3 a local default namespace). Signed "response-c14n11" signs the Response with inclusive
 	// canonicalisation (the verified element then keeps the spelling of the message).
 	NS int `json:"ea_namespace_spelling,omitempty"`
+	// Limit: MaximumDecompressedBodySize of the provider (it bounds how far a DEFLATE-compressed
+	// message may inflate; these messages are not compressed, and the plaintext twin is held to
+	// the same setting)
+	Limit int64 `json:"max_decompressed_size,omitempty"`
 }
 
 func c11Plain(n, tail int) []byte {
@@ -110,7 +114,7 @@ func c11Exec(c c11Case) (keys []string, detail, class string) {
 		return nil, detail, "exact/" + algName
 	}
 	// ValidateEncodedResponse level: encrypted Response vs plaintext twin
-	conf := world.SPConf{Store: []string{"K1"}}
+	conf := world.SPConf{Store: []string{"K1"}, MaxSize: c.Limit}
 	toKey := "KS"
 	switch c.KeyCfg {
 	case "field":
@@ -346,6 +350,18 @@ func c11Cases(thorough bool) (cases []c11Case, n1 int) {
 			}
 		}
 	}
+	// a decompression limit smaller than the message: nothing here is compressed
+	for _, lim := range []int64{1, 512, 4096} {
+		for alg := 0; alg < 5; alg++ {
+			for _, signed := range []string{"assertion", "response"} {
+				for _, pl := range []string{"", "detached"} {
+					for _, kc := range []string{"field", "setter"} {
+						cases = append(cases, c11Case{Level: "ValidateEncodedResponse", DataAlg: alg, KeyCfg: kc, Signed: signed, Placement: pl, Len: 1, Limit: lim})
+					}
+				}
+			}
+		}
+	}
 	// larger SP keys: the transported key is as long as the modulus
 	for _, kc := range []string{"field-rsa3072", "field-rsa4096", "setter-rsa4096"} {
 		for alg := 0; alg < 5; alg++ {
@@ -415,7 +431,7 @@ func c11HeldExec(c c11Held) (keys []string, detail string) {
 }
 
 func c11Run(r *mc.Run) {
-	r.Rule = "DecryptBytes level: full product data algorithm(5) x key transport/digest(9: OAEP-MGF1P and OAEP 1.1 with digest absent/sha1/sha256/sha512, RSA 1.5) x EncryptedKey placement(2) x recipient certificate(2) x plaintext length 0..48 (and 255..257, 4095..4097, 65535..65537, 1 MiB + 1) x tail(4: non-zero, 1, 2, 16 zero bytes) x CBC pad fill(3: zero, PKCS#7, 0xff), oracle = an independent XML-Enc encryptor (idp/enc.go): decrypted bytes = plaintext exactly, and still so after the next decryption (results held by the caller); ValidateEncodedResponse level: 45 combinations x 16 residues mod 16 x placement(2) x signing(2) x 5 key configurations (field, setter, both same, both different, field holding a key store of a custom type), plus Responses with two assertions of which the first, the second or both are encrypted (2 algorithms x 2 key configurations x 2 signing placements), oracle = plaintext twin (same outcome, same data in the same order, same summary); field-configured keys are also rolled over on the used instance, a setter-configured KeyStore is also updated in place; two encrypted assertions also with different key placement and digest; SP keys of RSA-3072 and RSA-4096 (field, setter) x algorithm(5) x transport(9) x placement(2); the EncryptedAssertion's namespace prefixes declared on the element, on the Response root only (its own / all three), or as a local default namespace x signing(3: assertions, Response with exclusive, Response with inclusive canonicalisation) x algorithm(2) x placement(2) x key API(2) x one or two encrypted assertions. non-trivial = decryption reached the symmetric step; distinct = distinct case"
+	r.Rule = "DecryptBytes level: full product data algorithm(5) x key transport/digest(9: OAEP-MGF1P and OAEP 1.1 with digest absent/sha1/sha256/sha512, RSA 1.5) x EncryptedKey placement(2) x recipient certificate(2) x plaintext length 0..48 (and 255..257, 4095..4097, 65535..65537, 1 MiB + 1) x tail(4: non-zero, 1, 2, 16 zero bytes) x CBC pad fill(3: zero, PKCS#7, 0xff), oracle = an independent XML-Enc encryptor (idp/enc.go): decrypted bytes = plaintext exactly, and still so after the next decryption (results held by the caller); ValidateEncodedResponse level: 45 combinations x 16 residues mod 16 x placement(2) x signing(2) x 5 key configurations (field, setter, both same, both different, field holding a key store of a custom type), plus Responses with two assertions of which the first, the second or both are encrypted (2 algorithms x 2 key configurations x 2 signing placements), oracle = plaintext twin (same outcome, same data in the same order, same summary); field-configured keys are also rolled over on the used instance, a setter-configured KeyStore is also updated in place; two encrypted assertions also with different key placement and digest; providers with a decompression limit of 1, 512 and 4096 bytes (the messages are not compressed) x algorithm(5) x signing(2) x placement(2) x key API(2); SP keys of RSA-3072 and RSA-4096 (field, setter) x algorithm(5) x transport(9) x placement(2); the EncryptedAssertion's namespace prefixes declared on the element, on the Response root only (its own / all three), or as a local default namespace x signing(3: assertions, Response with exclusive, Response with inclusive canonicalisation) x algorithm(2) x placement(2) x key API(2) x one or two encrypted assertions. non-trivial = decryption reached the symmetric step; distinct = distinct case"
 	r.Assume("for non-default OAEP digests MGF1 uses the same hash (the reading under which the library's exported identifiers interoperate with itself)")
 	cases, n1 := c11Cases(r.Thorough())
 	r.Set("decryptbytes_cases", n1)
